@@ -38,6 +38,7 @@ type HookTrace struct {
 	Caller  []HookEv   `json:"caller"`
 	Loop    []HookEv   `json:"loop"`
 	Workers [][]HookEv `json:"workers"`
+	WorkerG []int64    `json:"workerg"` // goroutine id of each worker (ids grow monotonically: birth order)
 	Note    string     `json:"note"`
 }
 
@@ -176,16 +177,17 @@ func (c *Collector) TakeAll(run int) []HookTrace {
 
 func (s *schedRec) trace(run int) HookTrace {
 	t := HookTrace{Run: run, NJ: len(s.jobs), N: s.n, Coe: s.coe, Emit: s.emit, Deps: s.depsL, JCtx: []int{},
-		Caller: []HookEv{}, Loop: []HookEv{}, Workers: [][]HookEv{}}
+		Caller: []HookEv{}, Loop: []HookEv{}, Workers: [][]HookEv{}, WorkerG: []int64{}}
 	if t.Deps == nil {
 		t.Deps = [][]int{}
 	}
 	type wk struct {
 		first int64
+		g     int64
 		evs   []HookEv
 	}
 	var wks []wk
-	for _, evs := range s.byG {
+	for g, evs := range s.byG {
 		if len(evs) == 0 {
 			continue
 		}
@@ -197,17 +199,19 @@ func (s *schedRec) trace(run int) HookTrace {
 		case 'l':
 			t.Loop = append(t.Loop, evs...)
 		case 'w':
-			wks = append(wks, wk{evs[0].Seq, evs})
+			wks = append(wks, wk{evs[0].Seq, g, evs})
 		}
 	}
 	sort.Slice(t.Caller, func(i, j int) bool { return t.Caller[i].Seq < t.Caller[j].Seq })
 	sort.Slice(t.Loop, func(i, j int) bool { return t.Loop[i].Seq < t.Loop[j].Seq })
-	// Workers are numbered by the sequence number of their first event: the
-	// initial N first (they log w_begin before anything can be dispatched to
-	// a replacement), replacements in order of birth.
+	// Workers are numbered by the sequence number of their first recorded event: normally the initial N
+	// first, then the replacements in order of birth.  This is a heuristic (an initial worker may log its
+	// first event after a replacement was born, and the spawner may start an initial worker after a
+	// replacement was born); the goroutine ids are kept so that the validator can try birth order too.
 	sort.Slice(wks, func(i, j int) bool { return wks[i].first < wks[j].first })
 	for _, w := range wks {
 		t.Workers = append(t.Workers, w.evs)
+		t.WorkerG = append(t.WorkerG, w.g)
 	}
 	return t
 }
